@@ -140,7 +140,7 @@ ADD = {
                 note=' The executable loop model is compared with hlrfFORM on random problems (normal / lognormal marginals, linear and quadratic limit states, random tol / iter): outcome, number of iterations, every evaluation point, beta, uCoord, xCoord at 1e-7 relative (looser only where the implementation itself loses the upper tail, DESIGN 7).'),
     'C11': dict(technique=' + Lean 4 proof about an EXECUTABLE model of the transformation for normal / lognormal marginals including its own Cholesky factorisation and triangular inverse (Model/{Chol,Nataf}.lean), compared with the implementation (L, L^-1, rhoZ, getU, getX, both matrices)',
                 text=' About the executable model (Proofs/C11Chol.lean, C11Model.lean): the outer-product Cholesky algorithm returns a lower-triangular L with positive diagonal and L L^T = A for every symmetric A with positive pivots, and on every symmetric positive-definite A all pivots are positive (chol_pivots_of_posdef); forward substitution returns X with L X = X L = 1; for the model built from them X->U->X and U->X->U are the identity on the support, the two returned matrices are inverse to each other, each is entrywise the partial derivative (HasDerivAt) of the other map; lognormal pair: the closed-form latent correlation reproduces the prescribed one.',
-                note=' The executable model is compared with NatafTransformation on random problems: L 1e-11, L^-1 1e-9, getU / getX 1e-8, returned matrices 1e-7, closed-form latent correlation vs rhoZ 2e-6.'),
+                note=' The executable model is compared with NatafTransformation on random problems: L 1e-11, L^-1 1e-9, getU / getX 1e-8, returned matrices 1e-7, closed-form latent correlation vs rhoZ 2e-6. Marginal families of the executable model: normal, lognormal (closed forms, theorems outright) and exponential, uniform, Gumbel, Weibull (constructor Marg.general: composed maps built by the driver from a double-precision Phi / Phi^-1 validated against scipy on every run; at the reals constrained by Marg.Valid).'),
     'C12': dict(technique=' + an EXECUTABLE model of the curvature extraction (Model/SormPipe.lean) compared with mainCurvaturesAtDesignPoint through the eigenvalues of its block + the three closing formulas REGENERATED from the numpy vector expressions of the source on every run (harness/translate_vec.py) and proved equal to the model for every scalar type',
                 text=' breitungPf_eq / tvedtPf_eq / hrackPf_eq: the definitions regenerated from the source text are the model definitions the theorems are about (for every scalar instance, so also for the Float instance evaluated against the implementation).',
                 note=' Translation validation of the regenerated formulas at Float against breitungSORM / tvedtSORM / hrackSORM (1e-11, Tvedt 1e-9). The curvature-extraction model (gradient pull-back, alignment vector, argmax column, Gram-Schmidt, U-space Hessian with the curvature of the marginal maps, conjugation) is compared with the implementation on random normal / lognormal problems at 2e-5; theorems C12p_block_flat (flat limit surface => all entries 0, so SORM = FORM end to end on the model), C12p_block_symm and C12p_paraboloid_entry (paraboloid in standard normal space: the curvature matrix is R diag(kappa) R^T with R R^T = 1 for any orthonormal rows orthogonal to the design direction), C12r_rows (the rows the model builds - argmax column, coincidence test, Gram-Schmidt loops - are orthonormal and orthogonal to the design direction whenever the U-space gradient is non-zero).'),
